@@ -13,7 +13,7 @@ NOT_PROVED = ["the grey-scale laws are theorems for unsigned dtypes and FLAT ele
               "masks); non-flat grey elements are compared with the model only",
               "binary duality is a theorem for elements whose clamped neighbourhood relation is symmetric (cross, boxes, disks pass the "
               "executable test shrink_closedb; an asymmetric element provably fails it): for other elements only the outputs are compared",
-              "the 2-D boolean fast path of _morph.cpp is tied to the generic model by correspondence (row views, all layouts)"]
+              "the 2-D boolean fast path: opening and closing computed through the fast-path model are PROVED equal to the generic ones, and the laws follow (FastLaws.v); both hand-written models are tied to the compiled code by correspondence (row views, all layouts)"]
 BUDGET_S = {"quick": 100, "thorough": 900}
 
 
